@@ -412,8 +412,8 @@ def run_bfs(concepts, case, spec):
     COL.count('bfs_transitions', n_trans)
 
 
-NAMES_O = ['o1', 'o2', 'o3', 'ö4', 'o5', 'объект']
-NAMES_P = ['p1', 'p2', 'p3', 'π4', 'p5', 'свойство']
+NAMES_O = ['o1', 'o2', '', 'ö4', '0', 'объект']
+NAMES_P = ['p1', '', 'p3', 'π4', 'False', 'свойство']
 
 
 def random_definition(D, rng, names_o, names_p):
